@@ -36,14 +36,15 @@ type Obligation struct {
 	Values  []string // terms worth reporting from a model (inputs)
 	Vacuity bool     // true: expected NOT to be unsat (assert false probe)
 	// results
-	Result   string // unsat | sat | unknown | timeout | error
-	Solver   string
-	Seconds  float64
-	Model    string
-	SMTBytes int
-	Extra    []string // extra commands asserted only for this obligation (skolem decls etc.)
-	props    []string
-	clause   *Clause
+	Result     string // unsat | sat | unknown | timeout | error
+	Solver     string
+	Seconds    float64
+	Model      string
+	SMTBytes   int
+	Extra      []string // extra commands asserted only for this obligation (skolem decls etc.)
+	props      []string
+	knownProbe *KnownFinding // set on the in-guard probe of a guarded known finding
+	clause     *Clause
 }
 
 // VC collects declarations, commands and obligations for one verification unit
